@@ -2,7 +2,7 @@
 ;; Status: draft validated by spikes in round 0 —
 ;;   * no solver derives `false` from it (z3 4.8.12, z3 5.1.0, cvc5 1.0: unknown);
 ;;   * T1_from_T0.smt2 (prefix lemmas the PDU level is given) proves from it in < 0.25 s per solver;
-;;   * ../lean/T0.lean proves the first 15 axioms over List (Fin 256) with Mathlib.
+;;   * ../lean/T0.lean proves 18 of the axioms over List (Fin 256) with Mathlib.
 ;; Not yet here (added with the functions that need them): md5, dec10, hexenc/hexdec, ext lemmas,
 ;; rep/tlvser (unfolded by the generator at fuel 1, never as self-triggering axioms), pack/specOctet,
 ;; ofArr, and the rule  n >= len a  ==>  take(cat a b, n) = cat(a, take(b, n - len a))  (true in the
